@@ -59,9 +59,26 @@ Theorem C17_fill_loop_is_mirror_fill : forall (A : Type) (d : A) n (lo hi : list
   F.fill_loop (Z.of_nat n) 1 lo hi (repeat d n) = mirror_fill n lo hi.
 Proof. intros A. exact (@fill_loop_is_mirror_fill A). Qed.
 
+Example C17_fill_loop_example :      (* npts = 5, m = 3: the middle entry is written twice, hi wins *)
+  F.fill_loop 5 1 [1; 2; 3]%Z [10; 20; 30]%Z (repeat 0%Z 5) = [1; 2; 30; 20; 10]%Z /\
+  mirror_fill 5 [1; 2; 3]%Z [10; 20; 30]%Z = [1; 2; 30; 20; 10]%Z.
+Proof. split; reflexivity. Qed.
+
+Theorem C17_fill_indices_in_bounds : forall npts i, (1 <= npts)%Z -> (1 <= i <= F.m_of npts)%Z ->
+  (0 <= F.idx_lo i < npts)%Z /\ (0 <= F.idx_hi npts i < npts)%Z /\ (F.idx_lo i <= F.idx_hi npts i)%Z.
+Proof. exact fill_indices_in_bounds. Qed.
+
 Theorem C17_gauleg_array_writes : forall orig x1 x2 npts coss,
   F.gauleg_gen_w orig x1 x2 npts coss = F.gauleg_gen orig x1 x2 npts coss.
 Proof. exact gauleg_writes_eq. Qed.
+
+(* For ALL inputs of the bit-exact model: whenever gauleg returns, it returns npts abscissae and
+   npts weights, and the weights are symmetric EXACTLY (bit for bit): w[npts+1-i-1] = w[i-1] is a
+   copy.  (Non-vacuity: C17_n1_unchanged_loop_refuted exhibits returning calls.) *)
+Theorem C17_gauleg_lengths_and_exact_weight_symmetry : forall orig x1 x2 npts coss xs ws,
+  F.gauleg_gen orig x1 x2 npts coss = Ok (xs, ws) ->
+  (0 < npts)%Z /\ length xs = Z.to_nat npts /\ length ws = Z.to_nat npts /\ rev ws = ws.
+Proof. exact gauleg_lengths_and_weight_symmetry. Qed.
 
 (* The integrators return the rule's weighted sum over the mapped abscissae; for tabulated data,
    of the linearly interpolated values. *)
